@@ -157,6 +157,7 @@ package sender
 //@   ensures [length] err == nil ==> len(result) == max(l, 0)
 //@ func (*sender.Transfer).simpleSendToken
 //@   at[C17] (io.Writer).Write: assert [chunk-within-frame-limit] len(arg0) <= 262144
+//@   loop 0: invariant [literal-progress] 0 <= l && l <= n
 //@ func (*sender.Transfer).sendFile
 //@   at[C17] (io.Writer).Write: assert [chunk-within-frame-limit] len(arg0) <= 262144
 //@ func (*sender.Transfer).hashSearch
